@@ -128,6 +128,9 @@ void h_ww_bits(void)
 	V_IN(word, val);
 	V_IN(unsigned char, bit);
 	size_t i;
+	V_TWEAK(pos, pos %= N * B_PER_W);
+	V_TWEAK(width, width %= B_PER_W + 1; if (pos + width > N * B_PER_W) width = N * B_PER_W - pos);
+	V_TWEAK(bit, bit &= 1);
 	V_ASSUME(pos < N * B_PER_W);
 	V_ASSUME(width <= B_PER_W && pos + width <= N * B_PER_W);
 	V_ASSUME(bit <= 1);
@@ -176,6 +179,7 @@ void h_ww_shift(void)
 	V_IN(size_t, shift);
 	V_IN(word, carry);
 	size_t j;
+	V_TWEAK(shift, shift %= (N + 3) * B_PER_W + 1);
 	V_ASSUME(shift <= (N + 3) * B_PER_W);
 	{	/* wwShLo: a <- a div 2^shift */
 		word A[NN];
